@@ -367,6 +367,42 @@ theorem model_retry_decision_is_the_codes (pos : Nat) (m : Int) (rl : Bool) (abo
       x.2.log.map (·.name) = r.log.map (·.name) ++ k.2.log.map ("rp." ++ ·) :=
   Failsafe.Lemmas.ExecBodiesLink.retryOnFailure_link pos m rl abort res1 r md elapsed hd
 
+/-- **the composition model's retry loop is the code's loop** (`retrypolicy.executor.Apply`, regenerated and tied on every run): one
+unfolding of the model's loop is one iteration of the code's, over the model's operations; whether the loop ends, with what, and in
+which order the inner call, the cancellation check, the exhausted pass-through, `PostExecute`, `RecordResult`, `OnRetryScheduled`, the
+wait, `InitializeRetry` and `OnRetry` happen is what the source says now -/
+theorem model_retry_loop_is_the_codes (pos : Nat) (m : Int) (rl : Bool) (h a : List Cond) (inner : Layer) (fuel : Nat) (r r1 : Run) (res : PR)
+    (hi : inner r = some (res, r1)) :
+    retryLoop pos m rl h a inner (fuel + 1) r =
+      (match ExecBodies.retryIter (Failsafe.Lemmas.ExecBodiesLink.retryOps pos m rl h a res r1) r with
+       | (some out, r') => some (out, r')
+       | (none, r') => retryLoop pos m rl h a inner fuel r') :=
+  Failsafe.Lemmas.ExecBodiesLink.retryLoop_link pos m rl h a inner fuel r r1 res hi
+
+/-- on the code's loop, for every instantiation of its operations: **an exhausted executor passes inner results through unprocessed,
+and a cancelled execution returns the cancel result before anything else is looked at** -/
+theorem kernel_loop_early_exits {σ : Type} (ops : LoopOps σ) (s : σ) :
+    ((ops.isCanc (ops.innerS s)).1 = true → ExecBodies.retryIter ops s = (some (ops.isCanc (ops.innerS s)).2, ops.innerS s)) ∧
+    ((ops.isCanc (ops.innerS s)).1 = false → ops.exceeded (ops.innerS s) = true →
+        ExecBodies.retryIter ops s = (some (ops.innerV s), ops.innerS s)) := by
+  constructor
+  · intro h; simp [ExecBodies.retryIter, h]
+  · intro h1 h2; simp [ExecBodies.retryIter, h1, h2]
+
+/-- … and **it goes round again only after `InitializeRetry` agreed**: a `none` answer means the result was not final, was recorded, and
+the next attempt was initialised -/
+theorem kernel_loop_continues_only_after_init {σ : Type} (ops : LoopOps σ) (s s' : σ) (h : ExecBodies.retryIter ops s = (none, s')) :
+    (ops.isCanc (ops.innerS s)).1 = false ∧ ops.exceeded (ops.innerS s) = false ∧
+      (ops.postV (ops.innerS s) (ops.innerV s)).done = false := by
+  simp only [ExecBodies.retryIter] at h
+  by_cases h1 : (ops.isCanc (ops.innerS s)).1 = true
+  · simp [h1] at h
+  · by_cases h2 : ops.exceeded (ops.innerS s) = true
+    · simp [h1, h2] at h
+    · by_cases h3 : (ops.postV (ops.innerS s) (ops.innerV s)).done = true
+      · simp [h1, h2, h3] at h
+      · exact ⟨by simpa using h1, by simpa using h2, by simpa using h3⟩
+
 example : (ExecBodies.retryOnFailure ⟨2, 0, false, some (), some ()⟩ ⟨2, false, []⟩ 0 false (fnResult 7 (some Err.full))).1 =
     failureResult (.exceededE 7 Err.full) := by decide
 
